@@ -216,15 +216,29 @@ fn scenario(pr: &Params) -> Verdict {
 /// A subscriber goes away and a new connection announces the same identity at about the same time
 /// (every interleaving within the bound): once the new connection's subscription has been processed,
 /// a matching publish must reach it.
-fn reconnect_scenario(ty: Ty, policy: u8, eof_first: bool) -> Verdict {
+fn reconnect_scenario(ty: Ty, policy: u8, eof_first: bool, variant: u8) -> Verdict {
     world::reset(world::WorldCfg { nested_env: true, yields: true, select: true, policy, coop: false });
     let s1 = e3::raw_conn("S1");
     let s2 = e3::raw_conn("S2");
     s1.send(&rc::handshake("SUB", Some(b"sub")));
     s1.send(&rc::encode_message(&[vec![1u8, b'a']]));
+    s1.send(&rc::encode_message(&[vec![1u8, b'b']]));
     s2.gate("first-up");
     s2.send(&rc::handshake("SUB", Some(b"sub")));
-    s2.send(&rc::encode_message(&[vec![1u8, b'a']]));
+    // what the NEW connection says for itself: 0 = subscribe a; 1 = subscribe a, unsubscribe a; 2 = nothing;
+    // 3 = as 0 with the old connection never ending (it is still open when the new one registers)
+    let n_new_msgs = match variant {
+        1 => {
+            s2.send(&rc::encode_message(&[vec![1u8, b'a']]));
+            s2.send(&rc::encode_message(&[vec![0u8, b'a']]));
+            2
+        }
+        2 => 0,
+        _ => {
+            s2.send(&rc::encode_message(&[vec![1u8, b'a']]));
+            1
+        }
+    };
     let sock = AnySocket::new(ty, None);
     let be = sock.backend();
     let be2 = be.clone();
@@ -242,13 +256,17 @@ fn reconnect_scenario(ty: Ty, policy: u8, eof_first: bool) -> Verdict {
         let mut sock = sock;
         world::wait_cond("first-attached").await;
         if ty == Ty::XPub {
-            let _ = world::until_idle(sock.recv()).await;
+            for _ in 0..2 {
+                let _ = world::until_idle(sock.recv()).await;
+            }
         } else {
             world::idle().await;
         }
         // the first connection ends and the peer comes back under the same identity; the order in which
         // the socket sees the two events is up to the scheduler (and to `eof_first` for the default order)
-        if eof_first {
+        if variant == 3 {
+            world::set_cond("first-up");
+        } else if eof_first {
             s1.eof();
             world::set_cond("first-up");
         } else {
@@ -257,7 +275,7 @@ fn reconnect_scenario(ty: Ty, policy: u8, eof_first: bool) -> Verdict {
         }
         world::wait_cond("second-attached").await;
         if ty == Ty::XPub {
-            for _ in 0..3 {
+            for _ in 0..(2 + n_new_msgs) {
                 if world::until_idle(sock.recv()).await.is_none() {
                     break;
                 }
@@ -267,6 +285,9 @@ fn reconnect_scenario(ty: Ty, policy: u8, eof_first: bool) -> Verdict {
         }
         let r = sock.send(msg(&[b"a-news".to_vec()])).await;
         world::log(format!("publish -> {}", e3::ok_or_err(&r)));
+        world::yield_now().await;
+        let r = sock.send(msg(&[b"b-news".to_vec()])).await;
+        world::log(format!("publish -> {}", e3::ok_or_err(&r)));
         world::set_cond("published");
         world::wait_cond("never").await;
         drop(sock);
@@ -274,7 +295,7 @@ fn reconnect_scenario(ty: Ty, policy: u8, eof_first: bool) -> Verdict {
     let end = world::run(e3::HORIZON);
     let mut v = Verdict::default();
     v.truncated = end != world::RunEnd::Quiescent;
-    let what = format!("{}: a subscriber (announced identity, subscribed to \"a\") leaves and a new connection with the same identity subscribes to \"a\"", ty.name());
+    let what = format!("{}: a subscriber (announced identity, subscribed to \"a\" and \"b\") {} and a new connection with the same identity {}", ty.name(), if variant == 3 { "stays connected" } else { "leaves" }, ["subscribes to \"a\"", "subscribes to \"a\" and unsubscribes again", "sends no subscription", "subscribes to \"a\""][variant as usize % 4]);
     for p in world::panics() {
         v.violate("panic", format!("{}: {}", what, p));
     }
@@ -283,10 +304,12 @@ fn reconnect_scenario(ty: Ty, policy: u8, eof_first: bool) -> Verdict {
     }
     if world::cond("published") && world::panics().is_empty() {
         let got = s2.tap_messages();
-        if got != vec![vec![b"a-news".to_vec()]] {
+        let want: Vec<Vec<Vec<u8>>> = if variant == 1 || variant == 2 { vec![] } else { vec![vec![b"a-news".to_vec()]] };
+        if got != want {
+            let class = if got.len() < want.len() { "reconnect/new-connection-lost-its-subscription" } else { "reconnect/new-connection-inherited-subscriptions" };
             v.violate(
-                "reconnect/new-connection-lost-its-subscription",
-                format!("{}: after both events were processed a matching publish reached the new connection {} times (its wire: {:?})", what, got.len(), got.iter().map(|m| rc::show_frames(m)).collect::<Vec<_>>()),
+                class,
+                format!("{}: after everything was processed, publishes a-news and b-news put {:?} on the new connection's wire; by its own subscription messages it must get {:?}", what, got.iter().map(|m| rc::show_frames(m)).collect::<Vec<_>>(), want.iter().map(|m| rc::show_frames(m)).collect::<Vec<_>>()),
             );
         }
     } else if world::panics().is_empty() && !v.truncated {
@@ -489,8 +512,8 @@ pub fn run(tier: Tier, replay: Option<String>) -> i32 {
                 return Some(std::sync::Arc::new(move || fault_scenario(ty, n, dead, kind, hk, pol)) as zvcore::explore::Scenario);
             }
             if p["scenario"] == "reconnect" {
-                let (ty, pol, ef) = (Ty::from_name(p["type"].as_str()?)?, p["policy"].as_u64()? as u8, p["eof_first"].as_bool()?);
-                return Some(std::sync::Arc::new(move || reconnect_scenario(ty, pol, ef)) as zvcore::explore::Scenario);
+                let (ty, pol, ef, var) = (Ty::from_name(p["type"].as_str()?)?, p["policy"].as_u64()? as u8, p["eof_first"].as_bool()?, p["variant"].as_u64().unwrap_or(0) as u8);
+                return Some(std::sync::Arc::new(move || reconnect_scenario(ty, pol, ef, var)) as zvcore::explore::Scenario);
             }
             let pr = pf(p)?;
             Some(std::sync::Arc::new(move || scenario(&pr)) as zvcore::explore::Scenario)
@@ -522,7 +545,13 @@ pub fn run(tier: Tier, replay: Option<String>) -> i32 {
     for ty in [Ty::Pub, Ty::XPub] {
         for policy in 0..3u8 {
             for eof_first in [false, true] {
-                jobs.push(e3::job(format!("C11/reconnect/{}/policy{}/{}", ty.name(), policy, eof_first), json!({"scenario":"reconnect","type":ty.name(),"policy":policy,"eof_first":eof_first}), tier.pick(3, 4), tier.pick(300_000, 3_000_000), move || reconnect_scenario(ty, policy, eof_first)));
+                for variant in 0..4u8 {
+                    if variant == 3 && eof_first {
+                        continue;
+                    }
+                    let bound = if variant == 0 { tier.pick(3, 4) } else { tier.pick(2, 3) };
+                    jobs.push(e3::job(format!("C11/reconnect/{}/policy{}/{}/variant{}", ty.name(), policy, eof_first, variant), json!({"scenario":"reconnect","type":ty.name(),"policy":policy,"eof_first":eof_first,"variant":variant}), bound, tier.pick(300_000, 3_000_000), move || reconnect_scenario(ty, policy, eof_first, variant)));
+                }
             }
         }
     }
